@@ -173,7 +173,7 @@ def _conds_hold(conds, env, fns=None):
     return True
 
 
-def find_point(decls, conds, rng, tries=400, fns=None):
+def find_point(decls, conds, rng, tries=300, fns=None):
     for k in range(tries):
         env = sample_env(decls, rng, spread=1.0 if k < tries // 2 else 2.0)
         try:
@@ -181,6 +181,55 @@ def find_point(decls, conds, rng, tries=400, fns=None):
                 return env
         except (ZeroDivisionError, ValueError, OverflowError):
             continue
+    return _smt_point(decls, conds, rng, fns)
+
+
+def _smt_point(decls, conds, rng, fns):
+    """rejection sampling failed (thin domain): ask z3 for a model of the conditions that only
+    mention plain variables, randomised by pinning a random subset of variables first."""
+    import z3
+    conds = [c for c in conds if c is not True]
+    plain = []
+    for c in conds:
+        if all(nf.ATOMS.atoms[i][0] == "var" for i in nf.all_atoms(c.expr)):
+            plain.append(c)
+    base = sample_env(decls, rng)
+    names = list(base)
+    for attempt in range(6):
+        tr = smt.Translator()
+        s = z3.Solver()
+        s.set("timeout", 5000)
+        for c in plain:
+            s.add(tr.cond(c))
+        # domain bounds for every declared variable
+        ids = {}
+        for n in names:
+            ids[n] = tr.atom(nf.ATOMS.get("var", n))
+        for d in decls:
+            for n in ([d.name] if d.shape == () else ["%s[%s]" % (d.name, ",".join(map(str, ix))) for ix in np.ndindex(*d.shape)]):
+                if d.lo is not None:
+                    s.add(ids[n] > d.lo)
+                if d.hi is not None:
+                    s.add(ids[n] < d.hi)
+        for a in tr.axioms:
+            s.add(a)
+        # pin a shrinking random subset to sampled values
+        pin = rng.sample(names, max(0, len(names) * (4 - attempt) // 6)) if attempt < 5 else []
+        for n in pin:
+            q = Q(base[n]).limit_denominator(10 ** 6)
+            s.add(ids[n] == z3.Q(q.numerator, q.denominator))
+        if s.check() == z3.sat:
+            m = s.model()
+            env = {}
+            for n in names:
+                v = smt._z3val(m.eval(ids[n], model_completion=True))
+                env[n] = float(v) if v is not None else base[n]
+            try:
+                if _conds_hold(conds, env, fns):
+                    return env
+            except (ZeroDivisionError, ValueError, OverflowError):
+                pass
+        base = sample_env(decls, rng)
     return None
 
 
@@ -205,7 +254,32 @@ def prove_scenario(scn, *, seed=0, crosscheck=2, max_paths=4000, timeout_ms=1000
     def run_sym():
         mk = MkSym()
         holder["mk"] = mk
-        claims = scn(mk)
+        try:
+            claims = scn(mk)
+        except (Undecided, Infeasible, Refuted):
+            raise
+        except Exception as e:
+            # the code under contract raised on symbolic input. If it also raises on a concrete
+            # point of the domain it is a violation ("raises within its precondition"); if not,
+            # the symbolic shim is at fault (checker error).
+            import traceback
+            tb = traceback.format_exc()
+            from .cond import current_path
+            conds = [c for c in current_path()]
+            for _ in range(4):
+                env = find_point(mk.decls, conds, rng, fns=fns)
+                if env is None:
+                    break
+                try:
+                    scn(MkNum(env))
+                except Infeasible:
+                    continue
+                except Exception as e2:
+                    raise Refuted("the code under contract raises inside its precondition: %s: %s" % (type(e2).__name__, e2),
+                                  witness={"env": env, "error": "%s: %s" % (type(e2).__name__, e2)},
+                                  replay=_with_env(replay, env), confirmed=True)
+                break
+            raise RuntimeError("symbolic run raised but the concrete run does not (shim fault?):\n" + tb)
         return claims, mk
 
     ex = Explorer(max_paths=max_paths, timeout_ms=timeout_ms)
@@ -391,7 +465,8 @@ def _refute_or_undecided(scn, mk, assumptions, rng, name, k, a, b, fns, replay, 
             vb = nf.evaluate(b, env, fns, mp=mpmath)
         except (ZeroDivisionError, ValueError):
             continue
-        if abs(va - vb) > mpmath.mpf(10) ** -25 * max(1, abs(va), abs(vb)):
+        thr = mpmath.mpf(10) ** (-25 if not fns else -9)
+        if abs(va - vb) > thr * max(1, abs(va), abs(vb)):
             confirmed = None
             try:
                 claims = scn(MkNum(env))
@@ -404,7 +479,7 @@ def _refute_or_undecided(scn, mk, assumptions, rng, name, k, a, b, fns, replay, 
                 confirmed = True
             raise Refuted(
                 "claim %s[%d]: sides differ. code: %s ; spec: %s ; at %s code=%s spec=%s" % (
-                    name, k, nf.show(a, 8), nf.show(b, 8), env, mpmath.nstr(va, 15), mpmath.nstr(vb, 15)),
+                    name, k, nf.show(a, 4)[:700], nf.show(b, 4)[:700], str(env)[:600], mpmath.nstr(va, 15), mpmath.nstr(vb, 15)),
                 witness={"claim": name, "index": k, "env": env, "code_value": mpmath.nstr(va, 20), "spec_value": mpmath.nstr(vb, 20)},
                 replay=_with_env(replay, env), confirmed=confirmed)
     raise Undecided("claim %s[%d]: normal forms differ but agree numerically at %d points (rewrite theory incomplete): %s vs %s"
@@ -471,3 +546,41 @@ def replay_scenario(desc, seed=0):
                     d["spec"] = [float(v) for v in _flat(cl[3])[0]][:8]
                 failing.append(d)
     return failing, tried
+
+
+# --- small polymorphic helpers for oracles (work in both modes) ---------------------------
+
+def el(x, idx=()):
+    """element of a tensor as a scalar usable in oracle arithmetic (RF or float)"""
+    if isinstance(x, ST):
+        v = x.a[idx]
+        return v
+    if isinstance(x, torch.Tensor):
+        return float(x[idx])
+    if isinstance(x, np.ndarray):
+        return x[idx]
+    return x
+
+
+def slog(x):
+    if isinstance(x, nf.RF):
+        return nf.rlog(x)
+    return math.log(x)
+
+
+def sexp(x):
+    if isinstance(x, nf.RF):
+        return nf.rexp(x)
+    return math.exp(x)
+
+
+def ssqrt(x):
+    if isinstance(x, nf.RF):
+        return nf.rsqrt(x)
+    return math.sqrt(x)
+
+
+def slgamma(x):
+    if isinstance(x, nf.RF):
+        return nf.rlgamma(x)
+    return math.lgamma(x)
